@@ -17,7 +17,8 @@ use crate::tape::Tape;
 #[derive(Clone, Debug, PartialEq, Eq, Hash, Serialize, Deserialize)]
 pub enum Op {
     AddFn,
-    /// `add_fns` with arity 0..=3.
+    /// `add_fns` with arity 0..=3 (a larger number: that many functions, added by
+    /// `add_fns` calls of arity 3).
     AddFns(usize),
     Logic(usize, usize),
     Contains(usize, usize),
@@ -133,14 +134,23 @@ pub fn eval_seq(case: &SeqCase) -> SeqEval {
                 }
                 Op::AddFns(k) => {
                     let base = ids.len();
-                    let got: Vec<FnId> = match k {
-                        0 => b.add_fns::<0>([]).to_vec(),
-                        1 => b.add_fns([newfn(base)]).to_vec(),
-                        2 => b.add_fns([newfn(base), newfn(base + 1)]).to_vec(),
-                        _ => b
-                            .add_fns([newfn(base), newfn(base + 1), newfn(base + 2)])
-                            .to_vec(),
-                    };
+                    // arities above 3 (large node sets) are added in chunks of 3
+                    let mut got: Vec<FnId> = vec![];
+                    let mut left = *k;
+                    loop {
+                        let at = base + got.len();
+                        let part: Vec<FnId> = match left {
+                            0 => b.add_fns::<0>([]).to_vec(),
+                            1 => b.add_fns([newfn(at)]).to_vec(),
+                            2 => b.add_fns([newfn(at), newfn(at + 1)]).to_vec(),
+                            _ => b.add_fns([newfn(at), newfn(at + 1), newfn(at + 2)]).to_vec(),
+                        };
+                        left -= left.min(3);
+                        got.extend(part);
+                        if left == 0 {
+                            break;
+                        }
+                    }
                     for (j, id) in got.iter().enumerate() {
                         if id.index() != base + j {
                             out.push(v("fn-id", format!("op {opi}: add_fns returned {got:?}")));
@@ -258,6 +268,18 @@ pub fn decode_seq(t: &mut Tape, max_fns: usize, max_ops: usize) -> SeqCase {
     let mut ops = vec![];
     let mut n = 0usize;
     let len = t.below(max_ops + 1);
+    // one sequence in sixteen works on a large node set (65..=140 functions added
+    // up front) with the edge calls concentrated on a few "hot" functions, so that
+    // repeats, reversed pairs and cycle attempts stay as frequent as on small sets
+    let large = t.chance(1, 16);
+    let mut hot = 0usize;
+    if large {
+        let k = 65 + t.below(76);
+        ops.push(Op::AddFns(k));
+        n = k;
+        hot = 3 + t.below(6);
+    }
+    let max_fns = if large { n } else { max_fns };
     for _ in 0..len {
         let c = t.below(20);
         let want_fn = n == 0 || (n < max_fns && c < 3);
@@ -275,7 +297,15 @@ pub fn decode_seq(t: &mut Tape, max_fns: usize, max_ops: usize) -> SeqCase {
         if n == 0 {
             continue;
         }
-        let pair = |t: &mut Tape| (t.below(n), t.below(n));
+        let pick = |t: &mut Tape| {
+            if hot > 0 && !t.chance(1, 8) {
+                // hot functions are spread over the id range
+                t.below(hot) * (n / hot)
+            } else {
+                t.below(n)
+            }
+        };
+        let pair = |t: &mut Tape| (pick(t), pick(t));
         match c {
             3..=9 => {
                 let (a, b) = pair(t);
@@ -317,7 +347,7 @@ impl Check for SeqCheck {
         let case = decode_seq(&mut t, self.max_fns, self.max_ops);
         let ev = eval_seq(&case);
         let mut labels = vec![
-            format!("fns:{}", match ev.n_fns { 0 => "0", 1..=3 => "1..3", _ => "4+" }),
+            format!("fns:{}", match ev.n_fns { 0 => "0", 1..=3 => "1..3", 4..=64 => "4..64", _ => "65+" }),
             format!("edge_calls:{}", match ev.edge_calls { 0 => "0", 1..=5 => "1..5", 6..=15 => "6..15", _ => "16+" }),
         ];
         if ev.rejected > 0 {
